@@ -213,6 +213,62 @@ def antenna_system_delegates_response_and_receive():
 
 
 # ---------------------------------------------------------------------------
+# receive: every component of a polarized list is an input of its own - it goes through apply_response with its own
+# polarization (so the field / voltage decision and the rejection of other value types are made per component), and what
+# is stored is the sum of the component responses.  Stated for every antenna class of the core package, because a
+# subclass may override receive.
+# ---------------------------------------------------------------------------
+
+def _receive_case(cls, types, tag):
+    calls = []
+    t = symarr("times")
+
+    def apply_response(self, signal, direction=None, polarization=None, force_real=False):
+        if signal.value_type is not T("field") and signal.value_type is not T("voltage"):
+            raise ValueError("neither field nor voltage")
+        calls.append((signal, direction, polarization, force_real))
+        return new("pyrex.signals.Signal", t, symarr("response_%d" % len(calls), len(t)), value_type="voltage")
+    use_stub("pyrex.antenna.Antenna.apply_response", apply_response)
+    a = obj(cls, position=np.array([real("ax"), real("ay"), real("az")]), antenna_factor=real("antenna_factor"),
+            efficiency=real("efficiency"), z_axis=np.array([0, 0, 1]), x_axis=np.array([1, 0, 0]), signals=[])
+    comps = [new("pyrex.signals.Signal", t, symarr("component_%d" % k, len(t)), value_type=vt) for k, vt in enumerate(types)]
+    pols = [vec("pol_%d" % k) for k in range(len(types))]
+    for k in range(len(types)):
+        assume(pols[k][0] * pols[k][0] + pols[k][1] * pols[k][1] + pols[k][2] * pols[k][2] > 0)
+    d = vec("dir")
+    if "undefined" in types or "power" in types:
+        prove(tag + ":a-component-that-is-neither-field-nor-voltage-is-rejected", raises("ValueError", a.receive, comps, direction=d, polarization=pols))
+        prove(tag + ":nothing-stored-for-the-rejected-list", len(a.signals) == 0)
+        return
+    a.receive(comps, direction=d, polarization=pols, force_real=True)
+    i = fresh_index("i", len(t))
+    prove(tag + ":one-signal-stored", len(a.signals) == 1)
+    prove(tag + ":every-component-goes-through-the-response-with-its-own-polarization",
+          And(len(calls) == len(types), *[And(calls[k][0] is comps[k], calls[k][1] is d, calls[k][2] is pols[k], calls[k][3] is True)
+                                          for k in range(min(len(calls), len(types)))]))
+    total = 0
+    for k in range(len(types)):
+        total = total + symarr("response_%d" % (k + 1), len(t))[i]
+    prove(tag + ":stored-signal-is-the-sum-of-the-component-responses", eq(a.signals[0].values[i], total))
+
+
+@harness(clause="receive-sums-component-responses")
+def receive_stores_the_sum_of_the_component_responses_antenna():
+    _receive_case(ANT, ("field", "voltage"), "Antenna:field+voltage")
+    _receive_case(ANT, ("field", "field"), "Antenna:field+field")
+    _receive_case(ANT, ("undefined", "field"), "Antenna:undefined+field")
+    _receive_case(ANT, ("field", "power"), "Antenna:field+power")
+
+
+@harness(clause="receive-sums-component-responses")
+def receive_stores_the_sum_of_the_component_responses_dipole():
+    _receive_case(DIP, ("field", "voltage"), "DipoleAntenna:field+voltage")
+    _receive_case(DIP, ("voltage", "voltage"), "DipoleAntenna:voltage+voltage")
+    _receive_case(DIP, ("undefined", "field"), "DipoleAntenna:undefined+field")
+    _receive_case(DIP, ("field", "undefined"), "DipoleAntenna:field+undefined")
+
+
+# ---------------------------------------------------------------------------
 # bounded stand-in with replayable inputs: the same geometry checked natively on random orientations
 # (the proved harnesses above spy on np.dot, which cannot be replayed natively)
 # ---------------------------------------------------------------------------
@@ -246,6 +302,26 @@ def antenna_coordinates_and_dipole_gains_sampled():
     prove("dipole-gain-is-sin-of-the-angle-from-its-axis", abs(got - np.sqrt(max(0.0, 1 - (Z / rr) ** 2))) <= 1e-8)
     pol = np.array([real("pol_x", -1, 1), real("pol_y", -1, 1), real("pol_z", -1, 1)])
     prove("dipole-polarization-gain-is-the-projection-on-its-axis", abs(dip.polarization_gain(pol) - float(np.dot(pol, za))) <= 1e-9)
+    # history: the same objects are re-oriented and moved after they have been used - they behave like fresh ones
+    a2, b2, c2 = real("euler_a2", -pi, pi), real("euler_b2", 0, pi), real("euler_c2", -pi, pi)
+    x2 = np.array([np.cos(a2) * np.cos(b2) * np.cos(c2) - np.sin(a2) * np.sin(c2), np.sin(a2) * np.cos(b2) * np.cos(c2) + np.cos(a2) * np.sin(c2), -np.sin(b2) * np.cos(c2)])
+    z2 = np.array([np.cos(a2) * np.sin(b2), np.sin(a2) * np.sin(b2), np.cos(b2)])
+    y2 = np.cross(z2, x2)
+    pos2 = pos + np.array([real("move_x", -30, 30), real("move_y", -30, 30), real("move_z", -30, 0)])
+    for moved in (ant, dip):
+        moved.set_orientation(z_axis=3 * z2, x_axis=0.5 * x2)
+        moved.position = pos2
+    rel2 = origin - pos2
+    assume(float(np.linalg.norm(rel2)) > 1e-3)
+    X2, Y2, Z2 = float(np.dot(rel2, x2)), float(np.dot(rel2, y2)), float(np.dot(rel2, z2))
+    rr2 = float(np.sqrt(X2 * X2 + Y2 * Y2 + Z2 * Z2))
+    r, theta, phi = ant._convert_to_antenna_coordinates(origin)
+    prove("after-re-orientation-and-move:coordinates-in-the-new-frame",
+          abs(r - rr2) <= 1e-9 * rr2 and abs(rr2 * np.cos(theta) - Z2) <= 1e-8 * rr2
+          and abs(rr2 * np.sin(theta) * np.cos(phi) - X2) <= 1e-8 * rr2 and abs(rr2 * np.sin(theta) * np.sin(phi) - Y2) <= 1e-8 * rr2)
+    got2 = dip.directional_gain(*dip._convert_to_antenna_coordinates(origin)[1:])
+    prove("after-re-orientation-and-move:dipole-gains-about-the-new-axis",
+          abs(got2 - np.sqrt(max(0.0, 1 - (Z2 / rr2) ** 2))) <= 1e-8 and abs(dip.polarization_gain(pol) - float(np.dot(pol, z2))) <= 1e-9)
 
 
 @harness(clause="dipole")
